@@ -795,3 +795,16 @@ class DocGen:
         if c.maybe(15):
             out["extra_undeclared"] = 1
         return out
+
+
+def gen_split(c, schema, kinds=("OBJECT", "INTERFACE", "INPUT", "ENUM", "UNION"), p=50):
+    """{type name: k}: which type definitions the SDL spells as a definition plus an `extend` block (model.split_type)"""
+    from tfv.model import MEMBERS_KEY
+
+    out = {}
+    for n, t in schema["types"].items():
+        if t["kind"] in kinds and not n.startswith("__"):
+            m = len(t[MEMBERS_KEY[t["kind"]]])
+            if m >= 2 and c.maybe(p):
+                out[n] = c.int(1, m - 1)
+    return out
